@@ -9,12 +9,14 @@ reg('C05', scenario='socks', level='exploration',
                'delivered after the reply (nothing withheld), and connect()/resolve() must fire exactly once with the '
                'matching outcome.',
     level_note=TRUSTED,
-    rule='Each run: one CONNECT / RESOLVE / RESOLVE_PTR through the real TorSocksEndpoint / socks.resolve* over a simulated '
-         'TCP connection to a scripted SOCKS5 server; reply kind, codes, address types, application bytes, segmentation '
-         'mode and an optional disconnect are drawn per run.',
+    rule='Each unit: one CONNECT / RESOLVE / RESOLVE_PTR through the real TorSocksEndpoint / socks.resolve* over a simulated '
+         'TCP connection to a scripted SOCKS5 server (causal, or - one run in five - sending its whole stream without '
+         'waiting); reply kind, codes, address types, application bytes and segmentation mode are drawn. One unit in three '
+         'injects a reset/FIN at a scheduler-chosen boundary; every other unit is re-run with the connection cut at EVERY '
+         'byte offset of the server stream, once by reset and once by FIN (disconnect sweep).',
     params=dict(),
-    quick=dict(units=60000, wall_cap=150),
-    thorough=dict(units=2500000, wall_cap=1500),
+    quick=dict(units=4000, wall_cap=150, chunk=50),
+    thorough=dict(units=150000, wall_cap=1500, chunk=200),
     assumptions=['a failure reply counts as complete once 8 bytes are delivered (that is when the reply code is known)',
                  'the bound address/port of a reply is not compared (the statement is silent)'])
 
